@@ -92,9 +92,18 @@ package conf
 //@ spec tmpl_fallback(m, e) = ite(m != nil && has(m, e.Dtype) && m[e.Dtype] != nil && has(m[e.Dtype], "fallback"), m[e.Dtype]["fallback"], "")
 //@ spec placeholder(k) = concat(concat("{{", k), "}}")
 //@ spec formatted_with(M, e) = (old(e.Message) != "" ==> e.Message == old(e.Message)) && (old(e.Message) == "" && !tmpl_known(M, e) ==> e.Message == tmpl_fallback(M, e)) && (old(e.Message) == "" && tmpl_known(M, e) && e.Params == nil ==> e.Message == replaceall(M[e.Dtype][e.Code], "{{value}}", sprintv(e.Value)))
+// The parameters are substituted in ascending key order (C09: the text must not depend on map iteration order, which
+// it did when a parameter's text contained another parameter's placeholder). pfold(t, P, S, n) is the template t after
+// the first n keys of the ascending enumeration of the key set S have been substituted with their values in P.
+//@ specfun pfold(String, StrVals, StrSet, Int) String
+//@ axiom pfold_zero(t String, P StrVals, S StrSet): (= (zz_pfold t P S 0) t)
+//@ axiom pfold_step(t String, P StrVals, S StrSet, i Int): (=> (>= i 0) (= (zz_pfold t P S (+ i 1)) (zz_replaceall (zz_pfold t P S i) (str.++ (str.++ "{{" (zz_ssnth S i)) "}}") (zz_sprintv (ite (select S (zz_ssnth S i)) (select P (zz_ssnth S i)) zz_ifnil)))))
 //@ func NewDefaultFormatter$1(e, c)
 //@   implements functype IssueFmtFunc
 //@   modifies e.Message
+//@   use pfold_zero(m[e.Dtype][e.Code], valsof(e.Params), domof(e.Params))
+//@   use pfold_step(m[e.Dtype][e.Code], valsof(e.Params), domof(e.Params), 0)
+//@   ensures[C09,C11] message_is_a_function_of_the_issue_alone: old(e.Message) == "" && tmpl_known(m, e) ==> e.Message == replaceall(pfold(m[e.Dtype][e.Code], valsof(e.Params), domof(e.Params), sslen(domof(e.Params))), "{{value}}", sprintv(e.Value))
 //@   ensures[C11] formats_with_its_map: formatted_with(m, e)
 //@   ensures[C11] keeps_a_message_that_is_set: old(e.Message) != "" ==> e.Message == old(e.Message)
 //@   ensures[C11] unknown_code_gets_the_types_fallback: old(e.Message) == "" && !tmpl_known(m, e) ==> e.Message == tmpl_fallback(m, e)
@@ -102,5 +111,13 @@ package conf
 //@   ensures[C11] single_param_is_filled_in: forall(k0, String, old(e.Message) == "" && tmpl_known(m, e) && onlykey(e.Params, k0) ==> e.Message == replaceall(replaceall(m[e.Dtype][e.Code], placeholder(k0), sprintv(e.Params[k0])), "{{value}}", sprintv(e.Value)))
 //@   loop rangeiter.loop#1
 //@     invariant e.Message == "" && tmpl_known(m, e)
-//@     invariant e.Params == nil ==> msg == m[e.Dtype][e.Code]
-//@     invariant[C11] params_filled_so_far: forall(k0, String, onlykey(e.Params, k0) ==> msg == ite(visited(k0), replaceall(m[e.Dtype][e.Code], placeholder(k0), sprintv(e.Params[k0])), m[e.Dtype][e.Code]))
+//@     invariant msg == m[e.Dtype][e.Code]
+//@     invariant ownalloc(keys)
+//@     invariant[C09] collected_keys_are_exactly_the_visited_ones: strset(keys) == visitedset() && strnodup(keys)
+//@     invariant[C09] visited_keys_are_keys: subset(visitedset(), domof(e.Params))
+//@   loop rangeindex.loop#1
+//@     use pfold_zero(m[e.Dtype][e.Code], valsof(e.Params), domof(e.Params))
+//@     use pfold_step(m[e.Dtype][e.Code], valsof(e.Params), domof(e.Params), zz_i)
+//@     invariant e.Message == "" && tmpl_known(m, e)
+//@     invariant[C09] keys_in_ascending_order: len(keys) == sslen(domof(e.Params)) && forall(i, 0, len(keys), keys[i] == ssnth(domof(e.Params), i))
+//@     invariant[C09,C11] substituted_so_far: msg == pfold(m[e.Dtype][e.Code], valsof(e.Params), domof(e.Params), zz_i)
